@@ -175,6 +175,7 @@ def finish(report, level_text, explanation):
             "known_findings": [{"key": o["key"], "what": known[(prop, o["key"])]} for o in kf],
             "checker_cmd": "bin/check %s --tier %s" % (prop, report.tier),
             "level_text": level_text,
+            "self_validation": getattr(report, "self_validation", None),
             "exhaustive": False,
         },
         "assumptions": report.assumptions,
